@@ -360,6 +360,28 @@ func checkC05(c *Check) {
 			c.Req(found, "C05.R4:reset:"+f.Name(), r4, p.InstrPos(fr.Instr), "the slot array is replaced without re-initialising "+f.Name()+" on the same path: state of the previous message leaks into the new one")
 		}
 	}
+	// count and size describe the same set of filled slots: a store that restarts
+	// the count from a constant (a new message, or an early release of the slots
+	// after completion) re-initialises the accumulated size on the same path;
+	// otherwise the next message with the same id and count is assembled into a
+	// buffer that still includes the previous message's bytes
+	nRestart := 0
+	for _, fr := range fieldRefs(grp, fCount) {
+		if fr.Kind != "store" {
+			continue
+		}
+		if _, isC := constInt(fr.Val); !isC {
+			continue
+		}
+		nRestart++
+		found := false
+		for _, fr2 := range fieldRefs(grp, fSize) {
+			if fr2.Kind == "store" && (dominates(fr.Instr, fr2.Instr) || dominates(fr2.Instr, fr.Instr)) && sameStraightLine(fr.Instr, fr2.Instr) {
+				found = true
+			}
+		}
+		c.Req(found, fmt.Sprintf("C05.R4:restart:count-with-size:%s#%d", fnName(fr.Fn), nRestart), r4, p.InstrPos(fr.Instr), "the fragment count is restarted from a constant without re-initialising the accumulated size on the same path: a later set of fragments with the same packet id and count is assembled with the stale size (the previous message's length is added, the payload gains trailing zero bytes)")
+	}
 	// assembly
 	nAsm := 0
 	allInstrsOf(grp, func(in ssa.Instruction) {
